@@ -85,6 +85,8 @@ def normalise(spec):
         n['shadow'] = None
     if not n.get('mat_kind'):
         n.update(mat_shape=[2, 3], mat_ij=[0, 0])
+    if n.get('tens') and (n['dim'] < 2 or n.get('boundary') or n.get('surface') or n['tens'] not in tens_names(n['dim'])):
+        n['tens'] = None
     if n['arity'] != 2:
         n['spaces'] = [0, 0]
     return n
@@ -110,6 +112,28 @@ def predef_table():
     return PREDEF
 
 
+TENS = ['dotJb0', 'dotJTb0', 'dotJb1', 'trJ', 'detJ', 'invJ01', 'invJT01', 'minor01', 'minor10', 'outer01', 'outer10',
+        'JJ01', 'JTJ01', 'JJT01', 'cross0', 'cross1']
+
+
+def tens_names(dim):
+    return [t for t in TENS if dim == 3 or not t.startswith('cross')]
+
+
+def tens_factor(V, name, dim):
+    from pyiga.vform import dot, tr, det, inv, minor, outer, cross
+    J = V.Jac
+    bv = (lambda: V.parameter('bv', shape=(dim,)))
+    return {
+        'dotJb0': lambda: dot(J, bv())[0], 'dotJTb0': lambda: dot(J.T, bv())[0], 'dotJb1': lambda: dot(J, bv())[1],
+        'trJ': lambda: tr(J), 'detJ': lambda: det(J), 'invJ01': lambda: inv(J)[0, 1], 'invJT01': lambda: inv(J).T[0, 1],
+        'minor01': lambda: minor(J, 0, 1), 'minor10': lambda: minor(J, 1, 0),
+        'outer01': lambda: outer(bv(), J[:, 0])[0, 1], 'outer10': lambda: outer(bv(), J[:, 0])[1, 0],
+        'JJ01': lambda: dot(J, J)[0, 1], 'JTJ01': lambda: dot(J.T, J)[0, 1], 'JJT01': lambda: dot(J, J.T)[0, 1],
+        'cross0': lambda: cross(bv(), J[:, 0])[0], 'cross1': lambda: cross(bv(), J[:, 0])[1],
+    }[name]()
+
+
 def build(spec, incremental=False):
     """A fresh VForm for the specification.  incremental=True: the two terms are added one after the
     other with a hash() query in between (returns None if the form refuses to be extended)."""
@@ -118,6 +142,9 @@ def build(spec, incremental=False):
     if spec['k'] == 'predef':
         kw = {kk: spec[kk] for kk in ('physical', 'updatable') if kk in spec}
         return getattr(vform, spec['fn'])(spec['dim'], **kw)
+    # knobs without influence are reset first: e.g. a let-variable that no term uses would be DECLARED by the code below
+    # and the pinned tree refuses forms with an unused let-variable (KeyError in VForm.hash) -- the spec would be dropped
+    spec = normalise(spec)
     dim = spec['dim']
     V = VForm(dim, geo_dim=(dim + 1 if spec['surface'] else None), boundary=spec['boundary'], arity=spec['arity'],
               spacetime=bool(spec.get('st')))
@@ -154,6 +181,10 @@ def build(spec, incremental=False):
         k1 = V.let('k1', vform.as_expr(spec['nlet']['v']) * V.Jac[0, 0])
         k2 = V.let('k2', 2.0 * k1)
         coef = coef * k2
+    if normalise(spec).get('tens'):
+        # a scalar factor built from TENSOR-valued expressions (matrix-vector and matrix-matrix products, transposes,
+        # slices, inverse, minors, determinant, trace, outer and cross products); neighbours differ in one token
+        coef = coef * tens_factor(V, spec['tens'], dim)
     if spec.get('mat_kind'):
         # one entry of a non-square matrix-valued parameter / input field
         shp = tuple(spec.get('mat_shape', [2, 3]))
@@ -214,6 +245,7 @@ def base_spec(s):
             'mat_ij': [s.choice(2), s.choice(2)], 'nlet': s.pick([None, None, None, {'v': 1.5}]),
             'upar': s.pick([None, None, None, {'name': 'zz', 'shape': []}, {'name': 'zz', 'shape': [2]}]),
             'shadow': s.pick([None] * 9 + [2.0]),
+            'tens': s.pick([None, None] + tens_names(dim)) if dim >= 2 else None,
             'par': bool(s.choice(2)), 'dax': s.choice(dim), 'dtimes': 0 if comps else s.choice(3), 'dpara': False,
             'meas': {'volume': 'dx', 'nomeasure': 'none', 'boundary': 'ds', 'boundary-nomeasure': 'none'}[kind],
             'op': s.pick(['', '+', '-']), 'c2': s.pick([1.5, 4.0])}
@@ -302,6 +334,13 @@ def mutations(spec):
         mut('let-name', let=dict(spec['let'], name={'B': 'C', 'C': 'B'}[spec['let']['name']]))
     if spec['dim'] >= 2 and spec['op'] and not spec['comps']:
         mut('spacetime', st=not spec.get('st', False))
+    if normalise(spec).get('tens'):
+        for t in tens_names(spec['dim']):
+            if t != spec['tens']:
+                mut('tensor-expression', tens=t)
+        mut('tensor-expression-present', tens=None)
+    elif spec['dim'] >= 2 and not spec['boundary'] and not spec['surface']:
+        mut('tensor-expression-present', tens='trJ')
     if spec.get('mat_kind'):
         shp = spec.get('mat_shape', [2, 3])
         for i in range(shp[0]):
